@@ -31,7 +31,8 @@ RULE = ("schedules of 1-8 queued requests (GET/POST with bodies, unique path and
         "redirect Locations re-assign none / some / all of the keys, also over multi-hop chains; requests queued through Client.request WITHOUT qargs (default = copy of the requester's) with and without "
         "a query in their path, several queued before the earlier one is built; payload kinds per request (data= JSON, fargs= form, body= bytes, none) on "
         "GET/POST/PUT/PATCH/DELETE with explicit or default headers; reconnectable connectors (reconnect timer 1-12 passes of virtual "
-        "time) against servers that close after replies, requests queued and popped during the cutoff, redirects followed across a close; in ~45% of the cases the answers are consumed through Client.respond(); replies optionally preceded by an interim 100 Continue (bare or with a header, same segment or earlier) "
+        "time) against servers that close after replies, requests queued and popped during the cutoff, redirects followed across a close; in ~45% of the cases the answers are consumed through Client.respond(); replies optionally preceded by an interim 100 Continue (bare or with a header, same segment or earlier); in ~30% of the cases the application hands its own requests/responses/events/redirects "
+        "containers (empty or pre-filled) to the constructor and works on those "
         "(after every pass / only at the end / in bursts).  A case is non-trivial when >= 3 requests were queued and some reply was delayed, "
         "fragmented or a redirect")
 MODELLED = ["response parsing (real Respondent) is abstracted to 'a complete reply with status s and Location l was "
@@ -383,14 +384,44 @@ def run_impl(case):
         rc = case.get("reconnect")   # reconnect tymeout in passes; None: connector not reconnectable
         kwc = {"reconnectable": True, "tymeout": float(rc)} if rc else {}
         connector = cls(tymth=tymist.tymen(), ha=HOSTS[0], **kwc)
+        from collections import deque
+        owned = case.get("owned")   # None | "empty" | "prefilled": application-owned containers handed to the constructor
+        kwo, identity = {}, {}
+        if owned:
+            app = {"requests": deque(), "responses": deque(), "events": deque(), "redirects": list()}
+            if owned == "prefilled" and case["events"] and case["events"][0][0] == "enq":
+                ev = case["events"][0]
+                t, m, q, pq = ev[1], ev_method(ev), ev_explicit(ev), ev_pathq(ev)
+                rq = {"method": m, "path": f"/t{t}" + ("?" + q_text(pq) if pq else ""),
+                      "qargs": {KEYS[k]: str(v) for k, v in (q or [])}, "fragment": "",
+                      "headers": {"X-Tag": str(t)} if ev_hdr(ev) else {}, "body": b"", "data": None, "fargs": None, "tag": t}
+                pk = ev_pay(ev)
+                if pk == "body":
+                    rq["body"] = f"payload {t}".encode()
+                elif pk == "data":
+                    rq["data"] = {"d": t}
+                elif pk == "fargs":
+                    rq["fargs"] = {"f": str(t)}
+                app["requests"].append(rq)
+            kwo = dict(app)
         client = clienting.Client(connector=connector, redirectable=case.get("redirectable", True),
-                                  method=case.get("cmethod", "GET"))
+                                  method=case.get("cmethod", "GET"), **kwo)
+        if owned:   # the containers in use ARE the ones handed in
+            identity = {"requests": client.requests is app["requests"], "responses": client.responses is app["responses"],
+                        "events": client.events is app["events"], "respondent.events": client.respondent.events is app["events"],
+                        "redirects": client.redirects is app["redirects"],
+                        "respondent.redirects": client.respondent.redirects is app["redirects"],
+                        "respondent.msg": client.respondent.msg is client.connector.rxbs}
+        # the application reads and writes ITS containers
+        req_q = app["requests"] if owned else client.requests
+        resp_q = app["responses"] if owned else client.responses
+        prefilled = 1 if (owned == "prefilled" and len(req_q)) else 0
         client.reopen()
         trace, escaped, bodies, snaps, ctsnaps = [], None, [], {}, {}
         arrivals, takes = [], []   # every entry appended to .responses, in order; what each respond() returned
 
         def take():
-            waiting = len(client.responses)
+            waiting = len(resp_q)
             r = client.respond()   # the public accessor
             if r is None:
                 takes.append([None, waiting])
@@ -407,6 +438,11 @@ def run_impl(case):
                 ev = ["pass"]; extra += 1
             if ev[0] == "take":
                 take()
+                continue
+            if ev[0] == "enq" and prefilled:
+                prefilled = 0   # this request was put on the deque before the Client was made
+                snaps[ev[1]] = []
+                ctsnaps[ev[1]] = None
                 continue
             if ev[0] == "enq":
                 t, m, q, pq = ev[1], ev_method(ev), ev_explicit(ev), ev_pathq(ev)
@@ -426,9 +462,11 @@ def run_impl(case):
                 # Client.request without qargs takes (a copy of) the requester's current ones: note them
                 snaps[t] = _target_of({"path": "/t0", "qargs": client.requester.qargs})[2]
                 client.request(method=m, tag=t, **kw)
+                if client.requests is not req_q:   # the application appends to ITS deque
+                    req_q.append(client.requests.pop())
                 continue
             net.tick()
-            before = (len(client.responses), len(client.redirects))
+            before = (len(resp_q), len(client.redirects))
             conn0, nsock0, cut0 = client.connector, net.nconn, bool(client.connector.cutoff)
             try:
                 client.service()
@@ -436,17 +474,17 @@ def run_impl(case):
                 from harness.core import exn_kind
                 escaped = [len(trace), exn_kind(ex), str(ex)[:80]]
                 break
-            narr = len(client.responses) - (before[0])   # entries appended in this pass (at most one)
-            for a in list(client.responses)[len(client.responses) - narr:] if narr > 0 else []:
+            narr = len(resp_q) - (before[0])   # entries appended in this pass (at most one)
+            for a in list(resp_q)[len(resp_q) - narr:] if narr > 0 else []:
                 arrivals.append(a)
                 bodies.append(bytes(a["body"]).hex())   # copy at arrival
-            after = (len(client.responses), len(client.redirects))
+            after = (len(resp_q), len(client.redirects))
             # the reconnect timer fired in this pass: same connector object, new socket
             # (sockets opened in this pass, minus the one of a connector that redirect() created)
             refired = (net.nconn - nsock0 - (0 if client.connector is conn0 else 1)) > 0
             # the connector read the server's close in this pass (same connector object)
             cutnow = client.connector is conn0 and bool(client.connector.cutoff) and (refired or not cut0)
-            trace.append([after != before, bool(client.waited), len(client.requests), after[0], after[1], refired, cutnow,
+            trace.append([after != before, bool(client.waited), len(req_q), after[0], after[1], refired, cutnow,
                           len(arrivals)])
             tymist.tick()
             if take_mode == "each":
@@ -470,7 +508,7 @@ def run_impl(case):
         return {"takes": takes, "taken_each": take_mode == "each", "taken_end": take_mode == "end",
                 "snaps": {str(k): v for k, v in snaps.items()}, "ctsnaps": {str(k): v for k, v in ctsnaps.items()},
                 "trace": trace, "entries": entries, "wire": wire, "escaped": escaped, "unsent": len(client.connector.txbs),
-                "final": [bool(client.waited), len(client.requests), len(client.redirects)],
+                "final": [bool(client.waited), len(req_q), len(client.redirects)], "identity": identity,
                 "conn_https": isinstance(client.connector, tcp.ClientTls), "replies_used": net.k,
                 "conn_reconnectable": bool(client.connector.reconnectable and client.connector.tymeout > 0.0)}
     finally:
@@ -484,6 +522,10 @@ def oracle(case, obs):
     if obs["escaped"]:
         return f"Client.service() raised {obs['escaped'][1]} at pass {obs['escaped'][0]}: {obs['escaped'][2]}"
     tags = [ev[1] for ev in case["events"] if ev[0] == "enq"]
+    bad_id = [k for k, v in obs.get("identity", {}).items() if not v]
+    if bad_id:
+        return (f"the Client does not use the application's own (empty) containers handed to its constructor: {bad_id}; what the "
+                f"application appends to / reads from them is lost")
     # one entry per request, same order, carrying its originating request
     origins = [(e["history"][0][1] if e["history"] else e["tag"]) for e in obs["entries"]]
     if origins != tags[:len(origins)]:
@@ -713,6 +755,10 @@ def directed():
         # Client.request WITHOUT qargs, several queued before anything is built, earlier paths carry a query
         {"events": [["enq", 1, "GET", "none", [[0, 1]]], ["enq", 2, "GET", "none"], ["enq", 3, "GET", "none", [[1, 2]]], ["enq", 4, "GET", "none"]],
          "replies": [{}, {}, {}, {}]},
+        # application-owned containers handed to the constructor (empty / pre-filled), appended to afterwards
+        {"owned": "empty", "events": _sched([1, 2, 3], [1, 0, 0]), "replies": [{}, {"delay": 1}, {}]},
+        {"owned": "prefilled", "events": [["enq", 1, "POST", [[0, 1]], [], "data", True], ["pass"], ["enq", 2, "GET"], ["enq", 3, "HEAD"]],
+         "replies": [{}, {"status": 302, "loc": rel}, {}, {}], "take": "end"},
         # interim 100 Continue responses (bare / with a header; same segment / earlier) are skipped, also twice in a row
         {"events": _sched([1, 2, 3]), "replies": [{"interim": "bare"}, {"interim": "hdr", "interim_early": True, "status": 404}, {"interim": "bare", "interim_early": True, "frags": 2}]},
         {"events": [["enq", 1, "POST", [], [], "data", True], ["enq", 2, "HEAD"], ["enq", 3, "GET"]],
@@ -814,6 +860,12 @@ def gen_case(rng):
         case["redirectable"] = False
     if rng.random() < 0.2:
         case["cmethod"] = rng.choice(["HEAD", "POST", "HEAD"])
+    ow = rng.random()
+    if ow < 0.2:
+        case["owned"] = "empty"
+    elif ow < 0.3 and case["events"][0][0] == "enq" and ev_explicit(case["events"][0]) is not None \
+            and not (len(case["events"][0]) > 4 and case["events"][0][4] == "inpath"):
+        case["owned"] = "prefilled"
     tk = rng.random()
     if tk < 0.15:
         case["take"] = "each"
@@ -868,6 +920,37 @@ def distribution(cases, obs):
         d["closed_server"] += any(r.get("close") or r.get("framing") == "close" for r in c["replies"][:o["replies_used"]])
         d["new_connectors"] += len({w[0] for w in o["wire"]}) - 1 if o["wire"] else 0
     return d
+
+
+def extra(tier, ctx):
+    """Identity probes for the other constructor-provided containers where an empty one is legal: the object keeps
+    using the (empty) container it was given."""
+    from collections import deque
+    from hio.core.http import clienting, httping
+    probes = {}
+    m, e, r = bytearray(), deque(), []
+    x = clienting.Respondent(msg=m, events=e, redirects=r)
+    probes.update({"Respondent.msg": x.msg is m, "Respondent.events": x.events is e, "Respondent.redirects": x.redirects is r})
+    q = {}
+    probes["Requester.qargs"] = clienting.Requester(qargs=q).qargs is q
+    raw, ev = bytearray(), deque()
+    x = httping.EventSource(raw=raw, events=ev)
+    probes.update({"EventSource.raw": x.raw is raw, "EventSource.events": x.events is ev})
+    m2 = bytearray()
+    probes["Parsent.msg"] = httping.Parsent(msg=m2).msg is m2
+    m3 = bytearray()
+    x = httping.Parsent(); x.reinit(msg=m3)
+    probes["Parsent.reinit.msg"] = x.msg is m3
+    for k, ok in probes.items():
+        if not ok:
+            ctx.violations.append({"kind": "identity-probe", "case": {"probe": k},
+                                   "why": f"{k}: an empty container handed to the constructor is silently replaced by a private one"})
+    # observation only (unchanged tree): Client(qargs={}) does `qargs or dict()`; the requester rebinds .qargs for
+    # every request anyway, so nothing the application holds can go stale - not part of C19's text
+    q2 = {}
+    ctx.notes.append("Client(qargs={}) keeps the caller's empty dict: %s (observation, by design per-request value)"
+                     % (clienting.Client(qargs=q2).requester.qargs is q2))
+    return {"identity_probes": probes}
 
 
 # --------------------------------------------------------------------------- Gallina emitter
